@@ -177,7 +177,10 @@ def generate(rng, tier, cls):
     if rng.chance(0.5):
         r['block_size'] = rng.choice([1, 2, 5, 13, 64, 95, 97, 200, 100000])
 
-    r['stream'] = rng.weighted([(7, 'sim'), (1, 'bytesio'), (2, 'buffered')])
+    r['stream'] = rng.weighted([(7, 'sim'), (1, 'bytesio'), (2, 'buffered')]
+                               if rng.chance(0.85) else
+                               [(1, 'minimal'), (1, 'gzip'), (1, 'mmap'),
+                                (1, 'spooled')])
 
     if r['stream'] == 'buffered':
         r['buf'] = rng.choice([1, 3, 64, 8192])
